@@ -3,6 +3,9 @@
 One Hypothesis part per function.  Every case is plain data ``(tag, payload...)``; the tag only feeds
 the label histogram, the oracle classifies the payload itself.
 
+* ``sweep`` (deterministic, ``ctx.enumerate``): one-character sweeps -- every code point 0x00..0xFF and a few above
+  Latin-1 is put alone / first / middle / last into each field of an otherwise valid input of every regex-defined
+  grammar here and judged by the same oracles as the generated cases (HTTPHeaders field names/values belong to C06).
 * ``reqline`` / ``statusline``: lines built from the RFC 9112 grammar (valid by construction), named
   near-miss mutations of them, and arbitrary text.  A hand-written character-level recogniser (no
   ``re``) sorts each line into MUST-ACCEPT (strict RFC 9112 line with an RFC 3986 target, HTTP/1.x),
@@ -35,6 +38,13 @@ Sensitivity (quick tier, seed 1, one mutant at a time on a scratch copy; all run
     read as process-local time) ... caught (C43.timestamp_roundtrip, form naive_datetime) since every timestamp case
     runs under a generated process time zone (TZ = UTC, XST-05:30, EST5EDT,..., AAA+8, ... + ``time.tzset()``, restored
     in ``finally``); invisible before because the sandbox runs in UTC (sixth-round mutation testing)
+  * ``_ABNF.reason_phrase`` VCHAR narrowed to ``[\\x21-\\x3B\\x3D-\\x7E]`` ("<" excluded for set_status's XSS defence, which
+    shares the pattern) so ``HTTP/1.1 200 <OK>`` is rejected ... caught (C43.statusline_must_accept on ``HTTP/1.1 200 <``)
+    by the new deterministic ``sweep`` part: every code point 0x00..0xFF (+ a few above) alone/first/middle/last in the
+    reason phrase, status code, version digits, separators, method token, request-target (path, query, host),
+    header-parameter key/name/value/quoted/RFC 2231 pieces, cookie name/value/quoted octets, host and port, token
+    parameters (encode round trip) and ``re.escape`` round trip (seventh-round mutation testing; the random reason
+    alphabet hit "<" too rarely)
   * ``_parse_header`` not lower-casing names ......................... caught (C43.encode_roundtrip)
   * NOT caught because equivalent: ``_netloc_re`` non-greedy (planned in DESIGN; the ``$`` anchor forces
     the same split) and ``(\\d+)`` -> ``(\\d*)`` (``int("")`` lands in the existing ``except ValueError``).
@@ -977,6 +987,61 @@ ip_s = st.one_of(
 
 
 # ----------------------------------------------------------------------------- driver
+# ----------------------------------------------------------------------------- one-character sweeps
+# Every grammar in this module that Tornado implements as a regex character class gets one deterministic sweep:
+# each code point 0x00..0xFF (plus a few above Latin-1) is put, alone, at the first / middle / last position of
+# each field of an otherwise valid input and the case goes through the same oracle as the generated cases, so
+# every allowed character must be accepted (with identical fields) and every disallowed one rejected.
+SWEEP_CODEPOINTS = list(range(0x100)) + [0x100, 0x17F, 0x212A, 0x660, 0x2028, 0xFF11, 0xFFFD, 0x1F600]
+
+
+def _positions(c, a="a", b="b"):
+    return [c, c + a + b, a + c + b, a + b + c]
+
+
+def sweep_cases():
+    for cp in SWEEP_CODEPOINTS:
+        c = chr(cp)
+        # status line: reason phrase (alone/first/middle/last), status code digits, version digits
+        for r in _positions(c, "O", "K"):
+            yield ("statusline", ("sweep_reason", "HTTP/1.1 200 " + r))
+        for code in (c + "00", "2" + c + "0", "20" + c):
+            yield ("statusline", ("sweep_code", "HTTP/1.1 %s OK" % code))
+        for v in ("HTTP/%s.1" % c, "HTTP/1.%s" % c, "HTTP%s1.1" % c, "HTTP/1%s1" % c):
+            yield ("statusline", ("sweep_version", v + " 200 OK"))
+            yield ("reqline", ("sweep_version", "GET / " + v))
+        yield ("statusline", ("sweep_sep", "HTTP/1.1%s200 OK" % c))
+        yield ("statusline", ("sweep_sep", "HTTP/1.1 200%sOK" % c))
+        # request line: method token, request-target (origin-form path/query, absolute-form host), separators
+        for m in _positions(c, "G", "T"):
+            yield ("reqline", ("sweep_method", m + " / HTTP/1.1"))
+        for t in (c, "/" + c, "/a" + c + "b", "/ab" + c, "/p?" + c, "/p?x=" + c + "&y", "http://h" + c + "x/", "http://h/" + c, "h" + c + ":80"):
+            yield ("reqline", ("sweep_target", "GET " + t + " HTTP/1.1"))
+        yield ("reqline", ("sweep_sep", "GET%s/ HTTP/1.1" % c))
+        yield ("reqline", ("sweep_sep", "GET /%sHTTP/1.1" % c))
+        # totality sweeps: header parameters, cookies, host/port
+        for line in ("a" + c, c + "; x=1", "a; " + c + "=1", "a; x" + c + "=1", "a; x=" + c, "a; x=" + c + "b", 'a; x="' + c + '"', 'a; x="\\' + c + '"',
+                     "a; x*=utf-8''" + c, "a; x*=" + c + "''v", "a; x*0" + c + "=1", "a; x*" + c + "=1"):
+            yield ("parse_header", ("sweep", line))
+        for ck in (c, c + "=v", "k=" + c, "k" + c + "=v", "k=v" + c + "w", 'k="' + c + '"', 'k="\\' + c + '"', 'k="\\01' + c + '"', "a=1;" + c + "b=2", "a=1" + c + "b=2"):
+            yield ("cookie", ("sweep", ck))
+        for nl in (c, c + ":80", "h" + c + ":80", "h:" + c, "h:8" + c, "h:" + c + "0", "h" + c + "80", "[::1]" + c + "80"):
+            yield ("hostport", ("sweep", nl))
+        # round trips: token-valued parameters and re.escape
+        if c in TCHAR:
+            yield ("encode", ("k" + c, [("n" + c.replace("*", "_"), "v" + c), (c.replace("*", "_") + "n", c)]))
+        yield ("re_unescape", ("rt", c))
+        yield ("re_unescape", ("rt", "a" + c + "\\" + c))
+        if c.isascii() and c.isalnum():
+            yield ("re_unescape", ("bad", "a.b", 1, c))
+            yield ("re_unescape", ("bad", "", 0, c))
+
+
+def run_sweep(ctx, case):
+    part, inner = case
+    SWEEP_PARTS[part](ctx, inner)
+
+
 PARTS = {
     "reqline": run_reqline,
     "statusline": run_statusline,
@@ -988,11 +1053,14 @@ PARTS = {
     "url_concat": run_url_concat,
     "re_unescape": run_re_unescape,
     "ip": run_ip,
+    "sweep": run_sweep,
 }
+SWEEP_PARTS = {k: v for k, v in PARTS.items() if k != "sweep"}
 
 
 def main(ctx):
     ctx.run_replays(PARTS)
+    ctx.enumerate(sweep_cases(), run_sweep, name="sweep")
     ctx.explore(reqline_s, run_reqline, ctx.n(2000, 150000), name="reqline")
     ctx.explore(statusline_s, run_statusline, ctx.n(2000, 150000), name="statusline")
     ctx.explore(parse_header_s, run_parse_header, ctx.n(2000, 150000), name="parse_header")
